@@ -325,3 +325,89 @@ func TestC20Context(t *testing.T) {
 		}
 	})
 }
+
+// ---- pooled messages of the early (pre-session) sends ---------------------------------
+
+type c20Failer struct {
+	kinds []string
+	got   []*erpc.Status
+}
+
+func (f *c20Failer) Name() string { return "c20failer" }
+func (f *c20Failer) PostAccept(s erpc.PreSession) *erpc.Status {
+	for _, k := range f.kinds {
+		var st *erpc.Status
+		switch k {
+		case "unencodable":
+			st = s.PreSend(erpc.TypePush, "/c20/early", make(chan int), nil, erpc.WithBodyCodec('j'))
+		case "deadctx":
+			dead, cancel := context.WithCancel(context.Background())
+			cancel()
+			st = s.PreSend(erpc.TypePush, "/c20/early", "x", nil, erpc.WithContext(dead))
+		case "rawpush":
+			st = s.RawPush("/c20/early", make(chan int), erpc.WithBodyCodec('j'))
+		default: // a send that works
+			st = s.PreSend(erpc.TypePush, "/c20/early", "fine", nil, erpc.WithBodyCodec('s'))
+		}
+		f.got = append(f.got, st)
+	}
+	return nil
+}
+
+// TestC20EarlySends: the messages used by the early sends of a session (PreSend, RawPush ...)
+// come from the message pool and go back to it exactly once, whether the send worked or not:
+// afterwards the pool hands out distinct, clean messages.
+func TestC20EarlySends(t *testing.T) {
+	rec := vt.NewRec(t, "C20", "early-sends", "an accept hook performs 1-4 early sends (PreSend / RawPush) of which some fail locally (unencodable body, cancelled context); afterwards 8 messages are drawn from the message pool on a single P; oracle: they are pairwise distinct objects and each is in the default state (what a fresh message shows); non-trivial = at least one early send failed; distinct by case")
+	old := debug.SetGCPercent(-1)
+	defer debug.SetGCPercent(old)
+	rapid.Check(t, func(t *rapid.T) {
+		vt.Init()
+		kinds := rapid.SliceOfN(rapid.SampledFrom([]string{"unencodable", "unencodable", "deadctx", "rawpush", "fine"}), 1, 4).Draw(t, "kinds")
+		nt := false
+		for _, k := range kinds {
+			if k != "fine" {
+				nt = true
+			}
+		}
+		rec.Case(fmt.Sprintf("%v", kinds), nt, fmt.Sprintf("sends=%d", len(kinds)))
+		if rec.WantSample() && nt {
+			rec.Sample(kinds)
+		}
+		defer runtime.GOMAXPROCS(runtime.GOMAXPROCS(1))
+		w := vt.NewWorld()
+		defer w.Close()
+		f := &c20Failer{kinds: kinds}
+		srv := w.Peer(erpc.PeerConfig{}, f)
+		cli := w.Peer(erpc.PeerConfig{})
+		cli.RoutePushFunc(func(ctx erpc.PushCtx, a *string) *erpc.Status { return nil })
+		l := w.Connect(cli, srv, vt.StreamProtos()[0], nil)
+		if l.A == nil || l.B == nil {
+			t.Fatalf("connect failed: %v %v", l.AStat, l.BStat)
+		}
+		for i, k := range kinds {
+			if k != "fine" && f.got[i].OK() {
+				t.Fatalf("harness: the early send %d (%s) was expected to fail locally", i, k)
+			}
+		}
+		var held []erpc.Message
+		seen := map[erpc.Message]int{}
+		for i := 0; i < 8; i++ {
+			m := erpc.GetMessage()
+			if j, dup := seen[m]; dup {
+				t.Fatalf("C20 violated: after early sends %v the message pool handed out the same object twice (draw %d and draw %d): a message went back to the pool twice", kinds, j, i)
+			}
+			seen[m] = i
+			if m.Seq() != 0 || m.Mtype() != 0 || m.ServiceMethod() != "" || m.Meta().Len() != 0 || m.Body() != nil || m.BodyCodec() != 0 || m.XferPipe().Len() != 0 || !m.StatusOK() || m.Size() != 0 {
+				t.Fatalf("C20 violated: after early sends %v a message drawn from the pool is not in the default state: %s", kinds, m.String())
+			}
+			// use it the way a holder would, so that a second holder of the same object would see it
+			m.SetServiceMethod(fmt.Sprintf("/held-by-%d", i))
+			m.Meta().Set("owner", fmt.Sprint(i))
+			held = append(held, m)
+		}
+		for _, m := range held {
+			erpc.PutMessage(m)
+		}
+	})
+}
